@@ -29,9 +29,9 @@ BUDGET = {
 }
 
 PROFILES = {
-    'C01': gen.profile(p_share_lazy=0.35),
+    'C01': gen.profile(p_share_lazy=0.35, p_generic=0.08),
     'C02': gen.profile(p_fail=0.0, p_retry=0.25, p_rec_nested=0.4, p_rec=0.2, p_share_lazy=0.4, p_sw=0.3),
-    'C03': gen.profile(p_rec=0.3, p_share=0.5, p_rec_nested=0.4),
+    'C03': gen.profile(p_rec=0.3, p_share=0.5, p_rec_nested=0.4, p_generic=0.08),
     'C04': gen.profile(p_share=0.75, n_max=11, p_sw=0.22, p_oneof=0.2, p_rec=0.1),
     'C05': gen.profile(p_fail=0.35, p_retry=0.3),
     'C07': gen.profile(p_fail=0.2),
